@@ -314,6 +314,47 @@ fn case(src: &mut Src, ctx: &mut Ctx) -> Result<(), Fail> {
         }
     } else {
         bed.listen();
+        // In a quarter of the passive opens an earlier connection attempt with other options
+        // (window scale, MSS, timestamps, initial sequence number) is answered and then reset by
+        // the peer: nothing negotiated in it may leak into the connection that follows.
+        // (decided from bits of the payload seed so that saved tapes keep their draws)
+        if (stream_seed >> 3) & 3 == 0 {
+            let b = stream_seed >> 8;
+            let irs0 = irs.wrapping_add(0x0100_0000 + (b as u32 & 0xffff));
+            let mut o = vec![];
+            match b & 3 {
+                0 => {}
+                1 => o.push(TcpOpt::Mss(1460)),
+                2 => o.push(TcpOpt::Mss(65535)),
+                _ => o.push(TcpOpt::Mss(100)),
+            }
+            match (b >> 2) & 3 {
+                0 => {}
+                1 => o.push(TcpOpt::Ws(7)),
+                2 => o.push(TcpOpt::Ws(14)),
+                _ => o.push(TcpOpt::Ws(((b >> 12) % 15) as u8)),
+            }
+            if (b >> 4) & 1 == 1 {
+                o.push(TcpOpt::Ts(5, 0));
+            }
+            if (b >> 5) & 1 == 1 {
+                o.push(TcpOpt::SackPerm);
+            }
+            let mut s0 = Tcp::new(rport, lport, irs0, None, SYN, 0xffff);
+            s0.opts = o.clone();
+            ctx.note(|| format!("peer: aborted attempt first: {}", s0));
+            let out = bed.deliver(&s0)?;
+            if out.iter().any(|s| s.has(SYN) && s.has(ACK)) {
+                let r0 = Tcp::new(rport, lport, irs0.wrapping_add(1), None, RST, 0);
+                let _ = bed.deliver(&r0)?;
+                if bed.sock().state() == tcp::State::Listen {
+                    ctx.label("aborted-attempt-before-handshake");
+                } else {
+                    ctx.label("aborted-attempt-not-back-in-listen");
+                    return Ok(());
+                }
+            }
+        }
         let mut sy = mk(None, SYN, syn_win, true);
         sy.opts = syn_opts.clone();
         let out = bed.deliver(&sy)?;
